@@ -63,7 +63,7 @@ func C07(p *core.Prog, r *core.Report) {
 	r.Rule("MUSTC", "no regexp.MustCompile of a non-constant pattern and no integer division by a non-constant in parser-reachable code", 0)
 	r.NotDecided = append(r.NotDecided, "termination and linear time (needs a progress measure per loop)", "type assertions and constant children of a parse result (fixed by the shape of the parser, settled by any test that runs it)", "the clause that inconsistent records (LOCUS length disagreeing with ORIGIN) are reported as errors: the record loop deliberately skips lines no sub-parser recognises")
 	r.Assumptions = append(r.Assumptions, "the Go compiler's prove pass is a sound value-range analysis (sites absent from its report are in bounds)", "strings/bytes IndexByte/Index return -1 or an index i with i+len(needle) <= len(s)", "(*pars.State).Request(n) returns nil only when n bytes are buffered; pars.Next is Request(1)", "explicit panic(...) statements are developer assertions and are not trap sites")
-	reach, missing := Reach(p)
+	reach, missing := Reach(p, Roots)
 	for _, m := range missing {
 		r.Und("REACH", m, "-", "anchor-unresolved: parser entry point not found")
 	}
@@ -83,6 +83,11 @@ func C07(p *core.Prog, r *core.Report) {
 			r.Bad("REACH", want, "-", "a function the property anchors is no longer reachable from the parser entry points: its trap sites are not being checked")
 		}
 	}
+	runTraps(p, r, reach)
+}
+
+// runTraps applies every trap rule to the reachable code.
+func runTraps(p *core.Prog, r *core.Report, reach map[*ssa.Function]bool) {
 	bce, ver, err := BCE(p)
 	if err != nil {
 		r.Und("IDX", "compiler-report", "-", err.Error())
@@ -353,4 +358,15 @@ func (t *trapCtx) advance(info *types.Info, body *ast.BlockStmt, label string) {
 			r.Ok("REQ-ADV", key, p.Pos(c.Pos()), "every path to this Advance passed a Request/Next whose error was tested nil")
 		}
 	}
+}
+
+// RepairNoPanic applies the trap rules to gts.Repair and what it calls (C12, clause "never panics").
+func RepairNoPanic(p *core.Prog, r *core.Report) {
+	r.Rule("IDX", "every index and slice expression in gts.Repair and the code it reaches that the compiler cannot prove in bounds is discharged by a dominating guard or a reviewed shape argument (the index lists hold range keys of the copied table)", 5)
+	r.Rule("NN", "every make length in that code is non-negative", 0)
+	reach, missing := Reach(p, []Root{{core.PkgGts, "Repair"}})
+	for _, m := range missing {
+		r.Und("REACH", m, "-", "anchor-unresolved")
+	}
+	runTraps(p, r, reach)
 }
